@@ -25,8 +25,10 @@ UNIVERSES = {
 FEES = [(0.0, 0.0), (1.0, 1.0 / 64), (1.0, 0.0), (0.0, 1.0 / 64), (2.0, 1.0 / 128), (0.0, 0.0002)]
 BASE_QUOTES = [(100.0, 100.0), (100.0, 104.0), (92.0, 96.0), (112.0, 112.0), (48.0, 52.0)]
 TRADE_SIZES = [1.0, -1.0, 2.0, -2.0]
-REBALANCES = [("weight", (0.5, 0.25)), ("weight", (-0.5, 0.0)), ("nr-contracts", (1.0, -1.0))]
-REBALANCES3 = [("weight", (0.5, 0.25, 0.125)), ("weight", (-0.5, 0.0, 0.25)), ("nr-contracts", (1.0, -1.0, 0.0))]
+REBALANCES = [("weight", (0.5, 0.25)), ("weight", (-0.5, 0.0)), ("nr-contracts", (1.0, -1.0)), ("nr-contracts", (0.5, -0.25)),
+              ("weight", (1.0, 0.5))]      # fully invested + margined: cash at or below zero, so margin calls exceed the idle cash
+REBALANCES3 = [("weight", (0.5, 0.25, 0.125)), ("weight", (-0.5, 0.0, 0.25)), ("nr-contracts", (1.0, -1.0, 0.0)), ("nr-contracts", (0.5, 0.0, -0.25)),
+               ("weight", (0.75, 0.5, 0.25))]
 
 
 def rebalances_for(n):
@@ -61,7 +63,7 @@ def alphabet(with_rebalance=True, nquotes=len(BASE_QUOTES), marks=True, ncontrac
         for ci in range(ncontracts):
             ops.append(("m1", ci))
     if with_rebalance:
-        for ri in range(len(REBALANCES)):
+        for ri in range(len(rebalances_for(ncontracts))):
             ops.append(("r", ri))
     return ops
 
@@ -249,6 +251,12 @@ def observe(ob, ref, cs):
                 if not fclose(w.get(c, 0.0), expw):
                     problems.append(("C05", "weight of %s reported %r, expected q*liq*mult/NLV = %r"
                                      % (c.symbol, w.get(c, 0.0), float(expw))))
+            nv = ob.holdings_values()
+            for c in cs:
+                q = ref.qty(c)
+                expn = q * Fr(liq_side(ob.exchange[c], q)) * Fr(c.multiplier) if q != 0 else Fr(0)
+                if not fclose(nv.get(c, 0.0), expn):
+                    problems.append(("C05", "notional value of %s reported %r, expected q*liq*mult = %r" % (c.symbol, nv.get(c, 0.0), float(expn))))
             lv = ob.holdings_values(kind="liquidation")
             if not fclose(sum(lv.values()), got):
                 problems.append(("C05", "holdings_values('liquidation') sums to %r, NLV %r" % (sum(lv.values()), got)))
@@ -298,6 +306,17 @@ def bfs(universe, fee, depth, scale, deposit, ops, rate=0.0, on_state=None, max_
             nsb = snap(b)
             obs_problems, nlv = observe(unsnap(nsb), nref, cs)
             problems = problems + obs_problems
+            if not problems and nlv is not None and nlv > 0:
+                # weights asked FIRST on a copy that has not been valued since the operation
+                try:
+                    w2 = unsnap(nsb).holdings_weights()
+                    for c in cs:
+                        q = nref.qty(c)
+                        expw = (q * Fr(liq_side(b.exchange[c], q)) * Fr(c.multiplier)) / Fr(nlv) if q != 0 else Fr(0)
+                        if not fclose(w2.get(c, 0.0), expw):
+                            problems.append(("C05", "weight of %s asked before any valuation is %r, expected %r" % (c.symbol, w2.get(c, 0.0), float(expw))))
+                except Exception as ex:
+                    problems.append(("C05", "holdings_weights() raised %r" % (ex,)))
             if problems:
                 for pid, msg in problems:
                     viol.append((pid, hist + (op,), msg))
